@@ -4,6 +4,8 @@ import json
 import random
 import sys
 
+if len(sys.argv) > 4 and sys.argv[4] == "numpy":
+    import numpy  # noqa: F401   joblib.hash uses NumpyHasher once numpy is loaded
 import joblib
 from vlib import gen_obj
 
@@ -33,4 +35,4 @@ for idx, spec in specs:
     except Exception as e:  # noqa
         row["err"] = f"{type(e).__name__}: {e}"[:300]
     out.append(row)
-json.dump({"rows": out, "joblib": joblib.__file__, "hashseed": sys.flags.hash_randomization}, open(out_file, "w"))
+json.dump({"rows": out, "joblib": joblib.__file__, "numpy_loaded": "numpy" in sys.modules, "hashseed": sys.flags.hash_randomization}, open(out_file, "w"))
